@@ -388,7 +388,7 @@ func exploreFileServer(c *Ctx, r *RuleResult) []*fsRun {
 	var runs []*fsRun
 	var fx *fsExplorer
 	spec := DTXSpec{Name: "file server", Entry: fn,
-		Sym: SymSpec{NonNil: func(k string) bool { return true }, MaxLen: func(string, types.Type) int { return 1 },
+		Sym: SymSpec{NonNil: func(k string) bool { return true }, MaxLen: func(string, types.Type) int { return 1 }, IntDomain: func(string) []int64 { return []int64{0, 7} },
 			Override: func(key string, t types.Type) Val {
 				switch key {
 				case "h.FileSystem":
